@@ -70,3 +70,75 @@ Definition newtype_hash {H} (hash_inner : value -> H) (stored : value) : H := ha
 Theorem hash_eq_borrowed {H} (hash_inner : value -> H) (stored : value) :
   newtype_hash hash_inner stored = hash_inner stored.
 Proof. reflexivity. Qed.
+
+(* ---- Ord of the non-float families is a lawful total order: the comparison always answers,
+   it is reflexive, and it is transitive through Lt / Eq (what BTreeMap / sort rely on) ---- *)
+Lemma lex_cmp_refl {X} (c : X -> X -> comparison) (a : list X) :
+  (forall x, c x x = Eq) -> lex_cmp c a a = Eq.
+Proof.
+  intros Hc. induction a as [|x a IH]; cbn [lex_cmp]; [reflexivity|]. rewrite Hc. exact IH.
+Qed.
+
+Lemma lex_cmp_lt_trans {X} (c : X -> X -> comparison) :
+  (forall x y, c x y = Eq -> x = y) ->
+  (forall x y z, c x y = Lt -> c y z = Lt -> c x z = Lt) ->
+  forall a b d : list X, lex_cmp c a b = Lt -> lex_cmp c b d = Lt -> lex_cmp c a d = Lt.
+Proof.
+  intros Heq Htr a. induction a as [|x a IH]; intros [|y b] [|z d]; cbn [lex_cmp];
+    try discriminate; try reflexivity.
+  destruct (c x y) eqn:Exy; try discriminate.
+  - apply Heq in Exy. subst y. destruct (c x z) eqn:Exz; try discriminate; [|reflexivity].
+    apply IH.
+  - destruct (c y z) eqn:Eyz; try discriminate.
+    + apply Heq in Eyz. subst z. rewrite Exy. reflexivity.
+    + rewrite (Htr _ _ _ Exy Eyz). reflexivity.
+Qed.
+
+Definition same_shape (a b : value) : Prop :=
+  match a, b with VI _, VI _ | VS _, VS _ | VL _, VL _ => True | _, _ => False end.
+
+(* partial_cmp never answers None on two values of one non-float shape: Ord::cmp cannot panic *)
+Theorem value_pcmp_total (fam : family) (a b : value) :
+  (forall is64, fam <> FFloat is64) -> same_shape a b ->
+  exists c, value_pcmp fam a b = Some c /\ value_cmp fam a b = CmpOk c.
+Proof.
+  intros Hf Hs. unfold value_cmp, value_pcmp.
+  destruct fam; try (exfalso; eapply Hf; reflexivity);
+    destruct a, b; cbn in Hs; try contradiction; eexists; split; reflexivity.
+Qed.
+
+Theorem value_pcmp_refl (fam : family) (a : value) :
+  (forall is64, fam <> FFloat is64) -> same_shape a a ->
+  value_pcmp fam a a = Some Eq.
+Proof.
+  intros Hf Hs. unfold value_pcmp.
+  destruct fam; try (exfalso; eapply Hf; reflexivity);
+    destruct a; cbn in Hs; try contradiction; f_equal;
+    try apply Z.compare_refl;
+    try (apply lex_cmp_refl; intros; apply N.compare_refl);
+    try (apply lex_cmp_refl; intros; apply Z.compare_refl).
+Qed.
+
+Theorem value_pcmp_lt_trans (fam : family) (a b d : value) :
+  (forall is64, fam <> FFloat is64) ->
+  value_pcmp fam a b = Some Lt -> value_pcmp fam b d = Some Lt -> value_pcmp fam a d = Some Lt.
+Proof.
+  intros Hf. unfold value_pcmp.
+  destruct fam; try (exfalso; eapply Hf; reflexivity); destruct a, b; try discriminate;
+    destruct d; try discriminate; intros H1 H2; injection H1 as H1; injection H2 as H2; f_equal.
+  all: try (apply Z.compare_lt_iff; apply Z.compare_lt_iff in H1; apply Z.compare_lt_iff in H2;
+            eapply Z.lt_trans; eassumption).
+  all: try (eapply (lex_cmp_lt_trans N.compare); [ intros x y; apply N.compare_eq_iff
+            | intros x y z Hx Hy; apply N.compare_lt_iff; apply N.compare_lt_iff in Hx;
+              apply N.compare_lt_iff in Hy; eapply N.lt_trans; eassumption | eassumption | eassumption ]).
+  all: try (eapply (lex_cmp_lt_trans Z.compare); [ intros x y; apply Z.compare_eq_iff
+            | intros x y z Hx Hy; apply Z.compare_lt_iff; apply Z.compare_lt_iff in Hx;
+              apply Z.compare_lt_iff in Hy; eapply Z.lt_trans; eassumption | eassumption | eassumption ]).
+Qed.
+
+(* PartialOrd agrees with PartialEq: partial_cmp answers Equal exactly when == holds *)
+Theorem value_pcmp_eq_consistent (fam : family) (a b : value) :
+  value_pcmp fam a b = Some Eq <-> value_eq fam a b = true.
+Proof.
+  unfold value_eq. destruct (value_pcmp fam a b) as [[| |]|]; split; congruence.
+Qed.
